@@ -503,7 +503,11 @@ def register(generators, gm):
                 out.append("(* control_requests::%s *)\nDefinition g_%s : list N := [%s].\n" % (it.name, it.name, "; ".join(str(b) for b in it.val.val)))
             if sorted(got) != ["BACKGROUND", "CREATE_COLOR", "FOREGROUND"]:
                 raise TranslateError("mod control_requests: constants %r" % got)
-            out.append(translate(lib, vocab("lib", consts, lib_imported, bool(colorset)), [
+            lv = vocab("lib", consts, lib_imported, bool(colorset))
+            # methods of anstyle's own colour types that lib.rs calls and the vocabulary does not name (`color.is_bright()`) are
+            # INLINED from crates/anstyle/src/color.rs (emit.py local_method: the `impl` of the receiver's type)
+            lv["inline_sources"] = [col]
+            out.append(translate(lib, lv, [
                 ("is_bright", None, "g_is_bright", {}),
                 ("has_bright_fg", None, "g_has_bright_fg", {}),
                 ("ansi_color_to_roff", None, "g_ansi_color_to_roff", {}),
